@@ -404,3 +404,13 @@ pub fn find_sub(hay: &[u8], needle: &[u8]) -> Option<usize> {
   }
   hay.windows(needle.len()).position(|w| w == needle)
 }
+
+pub fn rand_bytes_in(rng: &mut impl rand::Rng, r: std::ops::Range<usize>) -> Vec<u8> {
+  let n = rng.gen_range(r);
+  rand_bytes(rng, n)
+}
+
+pub fn rand_bytes_pick(rng: &mut impl rand::Rng, lens: &[usize]) -> Vec<u8> {
+  let n = *pick(rng, lens);
+  rand_bytes(rng, n)
+}
